@@ -3,6 +3,9 @@ import PqlModel.Props.C06Subst
 import PqlModel.Props.C14Order
 import PqlModel.Props.C06Operand
 import PqlModel.Props.C02EndToEndSource
+import PqlModel.Props.C06Params
+import PqlModel.Props.C06ParamsAtomic
+import PqlModel.Props.C06ParamsExamples
 #print axioms Pql.C06.C06_shadow
 #print axioms Pql.C06.C06_other_binding_irrelevant
 #print axioms Pql.C06.C06_after_ignored
@@ -37,3 +40,18 @@ import PqlModel.Props.C02EndToEndSource
 #print axioms Pql.C06.C06_join_name_counterexample
 #print axioms Pql.C06.C06_param_regrouped
 #print axioms Pql.C06.C06_param_comment
+#print axioms Pql.Params.C06_params_verbatim
+#print axioms Pql.Params.C06_params_substitute
+#print axioms Pql.Params.C06_params_failure_independent
+#print axioms Pql.Params.C06_params_are_holes
+#print axioms Pql.Params.C06_compile_params_verbatim
+#print axioms Pql.Params.C06_param_occurrences
+#print axioms Pql.Params.C06_no_params_no_raw
+#print axioms Pql.Params.C06_param_reference
+#print axioms Pql.Params.C06_params_as_lets_bytes
+#print axioms Pql.Params.C06_atomic_params_tokens
+#print axioms Pql.Params.C06_atomic_params_end_to_end
+#print axioms Pql.Params.C06_parse_roundtrip_params
+#print axioms Pql.Params.C06_operand_is_unit_params
+#print axioms Pql.Params.C06_param_value_is_operand
+#print axioms Pql.Params.C06_params_lets_same_skeleton
